@@ -2,6 +2,7 @@
 import json, re
 import vlib
 from vlib import judge
+import tltrace
 
 # per property: model-checking configs (quick, thorough) and expected-to-fail spec mutants
 MC = {
@@ -62,6 +63,32 @@ def run(ctx, prop):
         ctx.violation(sig, "%s - scenario %s (%s), event %d of %d; last events: %s" % (
             rule, c["kind"], c["note"], k, len(c["evs"]),
             " ".join("%s(%s)" % (e["e"], ",".join(str(e[x]) for x in ("p", "t", "res", "v") if e.get(x))) for e in window)), {"case": c})
+    # 3. implementation-level conformance: are the recorded traces behaviours of the protocol model itself?
+    #    (TaskLaneTrace.tla: the model may run at most one step per goroutine ahead of the log.)
+    #    A rejection is model drift, not a violation: the verdicts above come from the statement layer.
+    per_kind = {}
+    chosen = []
+    for c in sorted(rows, key=lambda c: len(c["evs"])):
+        if len(c["evs"]) > (260 if q else 500):
+            continue
+        per_kind.setdefault(c["kind"], 0)
+        if per_kind[c["kind"]] < (8 if q else 60):
+            per_kind[c["kind"]] += 1
+            chosen.append(c)
+    tres = tltrace.validate(ctx, chosen, maxpar=12, timeout=45 if q else 180)
+    acc = [c for c, st, d in tres if st == "accepted"]
+    rej = [(c, d) for c, st, d in tres if st == "rejected"]
+    inv = [(c, st, d) for c, st, d in tres if st.startswith("invariant:")]
+    inconclusive = [c for c, st, d in tres if st in ("infra", "skipped")]
+    if (rej or inv) and not ctx.violations:
+        ctx.level = "exploration"
+        c0, d0 = (rej[0] if rej else (inv[0][0], inv[0][1] + " " + inv[0][2][:300]))
+        msg = "%d of %d traces are not behaviours of the implementation-shaped model (first: %s %s - %s)" % (
+            len(rej) + len(inv), len(chosen), c0["kind"], c0["note"], d0)
+        ctx.notes.append("DRIFT: " + msg)
+        print("DRIFT property=%s %s" % (prop, msg))
+    ctx.cov["impl_level_traces"] = {"tried": len(chosen), "accepted": len(acc), "rejected": len(rej), "model_invariant_hit": len(inv),
+                                    "inconclusive_timeout": len(inconclusive)}
     kinds = {}
     for c in rows:
         kinds[c["kind"]] = kinds.get(c["kind"], 0) + 1
